@@ -387,7 +387,7 @@ def schema_paths():
     global _PATHS
     if _PATHS is None:
         import gen_tables
-        _PATHS = gen_tables.gen_schema_pd_paths()["paths"]
+        _PATHS = gen_tables.live_or_snapshot("pd_paths", lambda: {"paths": gen_tables.gen_schema_pd_paths()["paths"]})["paths"]
     return _PATHS
 
 
